@@ -208,9 +208,22 @@ ToEvent(p) == <<IF p[1] = lfd THEN LFD ELSE IF p[1] = kfd THEN KFD ELSE p[1], Ki
 
 Res(SS, stop, bad, hk) == [S |-> SS, stop |-> stop, bad |-> bad, hk |-> hk]
 
-RECURSIVE RunBatch(_, _, _)
-RunBatch(SS, b, hk) ==
+\* a client action performed INSIDE the requests() call, right before the server handles the next element
+\* of the batch (harness hook at_event): the batch is stale from here on -- the race-only branches of the
+\* code (a receive that returns end-of-stream, a write to a peer that has just gone, an accept of a client
+\* that has already left) are bound to the same operators that MC_Server_race explores
+ApplyMid(SS, h) ==
+    CASE h.op = "close" -> CClose(SS, h.c)
+      [] h.op = "shutwr" -> CShutWr(SS, h.c)
+      [] h.op = "shutrd" -> CShutRd(SS, h.c)
+      [] h.op = "send" -> CSend(SS, h.c, h.bytes)
+      [] OTHER -> SS
+
+RECURSIVE RunBatch(_, _, _, _)
+\* i: 0-based index of the element Head(b) in the batch (a mid action names the index it preceded)
+RunBatch(SS, b, hk, i) ==
     IF b = <<>> THEN Res(SS, "", "", hk)
+    ELSE IF hk # <<>> /\ Head(hk).h = "mid" /\ Head(hk).at <= i THEN RunBatch(ApplyMid(SS, Head(hk)), b, Tail(hk), i)
     ELSE
     LET e == Head(b)  f == e[1] IN
     IF f = KFD THEN Res(SS, "shutdown", "", hk)
@@ -219,16 +232,16 @@ RunBatch(SS, b, hk) ==
         ELSE LET h == Head(hk)  full == Cardinality(Open(SS)) = MaxConn IN
              IF SS.backlog = <<>> THEN Res(SS, "", "batch:listener-without-backlog", hk)
              ELSE IF h.h = "refuse" THEN
-                  IF full THEN RunBatch(SrvAccept(SS, 0), Tail(b), Tail(hk))
+                  IF full THEN RunBatch(SrvAccept(SS, 0), Tail(b), Tail(hk), i + 1)
                   ELSE Res(SS, "", "capacity:refused-below-capacity", hk)
              ELSE IF h.h = "accept" THEN
                   IF full THEN Res(SS, "", "capacity:accepted-at-capacity", hk)
                   ELSE IF h.fd \notin Fds THEN Res(SS, "", "harness:fd-out-of-range", hk)
                   ELSE IF h.fd \in Open(SS) THEN Res(SS, "", "fds:accept-returned-open-descriptor", hk)
-                  ELSE RunBatch(SrvAccept(SS, h.fd), Tail(b), Tail(hk))
+                  ELSE RunBatch(SrvAccept(SS, h.fd), Tail(b), Tail(hk), i + 1)
              ELSE Res(SS, "", "hook:unexpected-" \o h.h, hk)
     ELSE IF f \notin Fds \/ SS.srv[f].st = "none" THEN Res(SS, "", "batch:event-for-unknown-descriptor", hk)
-    ELSE IF SS.srv[f].st = "Closed" \/ e[2] # "OUT" THEN RunBatch(HandleEvent(SS, e, 0, 0).S, Tail(b), hk)
+    ELSE IF SS.srv[f].st = "Closed" \/ e[2] # "OUT" THEN RunBatch(HandleEvent(SS, e, 0, 0).S, Tail(b), hk, i + 1)
     ELSE IF ~PendingWrite(SS.srv[f].http) THEN Res(SS, "err", "", hk)       \* InvalidWrite: requests() fails
     ELSE IF hk = <<>> \/ Head(hk).h # "write" THEN Res(SS, "", "hook:missing-write", hk)
     ELSE
@@ -240,7 +253,7 @@ RunBatch(SS, b, hk) ==
        ELSE IF h.closed /\ ~gone /\ Len(SS.s2c[c]) <= 16384 THEN Res(SS, "", "write:failed-on-live-peer", hk)
        ELSE IF ~h.closed /\ gone THEN Res(SS, "", "write:succeeded-on-dead-peer", hk)
        ELSE IF ~h.closed /\ k = 0 THEN Res(SS, "", "write:zero", hk)
-       ELSE RunBatch(SrvWrite(SS, f, k).S, Tail(b), Tail(hk))
+       ELSE RunBatch(SrvWrite(SS, f, k).S, Tail(b), Tail(hk), i + 1)
 
 TPoll ==
     /\ Ev("poll") /\ Common /\ RxSame
@@ -254,9 +267,9 @@ TPoll ==
            bt == hooks[1].ev
            batch == [i \in 1..Len(bt) |-> ToEvent(bt[i])]
            bset == {batch[i] : i \in 1..Len(batch)}
-           hk == SelectSeq(hooks, LAMBDA h : h.h \in {"accept", "refuse", "write"})
+           hk == SelectSeq(hooks, LAMBDA h : h.h \in {"accept", "refuse", "write", "mid"})
            removedLog == {hooks[i].fd : i \in {j \in 1..Len(hooks) : hooks[j].h = "remove"}}
-           r == RunBatch(S, batch, hk)
+           r == RunBatch(S, batch, hk, 0)
        IN IF ~(MustReady \subseteq bset /\ bset \subseteq MayReady) \/ Len(batch) # Cardinality(bset)
           THEN Bad("batch:not-the-ready-set", [batch |-> batch, must |-> MustReady, may |-> MayReady]) /\ UNCHANGED S
           ELSE IF r.bad # "" THEN Bad(r.bad, [batch |-> batch, hooks |-> hk]) /\ UNCHANGED S
